@@ -67,9 +67,11 @@ def impl_inspect(cfg, o, rng):
         head = (0, (sp.num_leaves, sp.num_nodes, sp.num_children, int(sp.kind), 1 if sp.is_leaf() else 0,
                     1 if sp.is_one_level() else 0, type_code(sp.type)))
         assert len(sp) == sp.num_leaves
+        pths = attempt(lambda: tuple(world.abs_path(p) for p in sp.paths()))
+        accs = attempt(lambda: tuple(abs_accessor(a) for a in sp.accessors()))
         return (head,
-                tuple(world.abs_path(p) for p in sp.paths()),
-                tuple(abs_accessor(a) for a in sp.accessors()),
+                pths[1] if pths[0] == 0 else pths,
+                accs[1] if accs[0] == 0 else accs,
                 tuple(world.abs_spec(c) for c in sp.children()),
                 tuple(res_spec(attempt(lambda i=i: sp.child(i))) for i in idx),
                 tuple(world.abs_key(e) for e in sp.entries()),
